@@ -667,7 +667,8 @@ fn sweep_test(c: &SweepCell, obs: &mut Obs) -> CheckResult {
     vensure!(!base.captured.is_empty(), "sweep-no-capture", "no response captured for {}", c.cfg.cell());
     let two = matches!(c.sel, Sel::OuterTotalLen | Sel::QuotedTotalLen | Sel::QuotedV6PayloadLen | Sel::L4Word2 | Sel::ExtObjLen);
     let values: Vec<u16> = if two {
-        (0..=64u16).chain([100, 127, 128, 129, 136, 200, 255, 256, 257, 511, 512, 1000, 1023, 1024, 1025, 4096, 32767, 32768, 65527, 65528, 65534, 65535]).collect()
+        // dense around the receive buffer (1024) and the internal payload / packet buffers (976, 996, 1004)
+        (0..=64u16).chain([100, 127, 128, 129, 136, 200, 255, 256, 257, 511, 512]).chain(940..=1070).chain([4096, 32767, 32768, 65527, 65528, 65534, 65535]).collect()
     } else {
         (0..=255).collect()
     };
@@ -927,7 +928,7 @@ pub fn check() -> PropertyCheck {
     PropertyCheck {
         id: "C04",
         level: "exploration",
-        rule: "view-sweep: for each of the 19 packet views, every value of its length/offset octet(s) (all 256, or 0..300 + boundaries + every 251st of 65536 for two-octet fields) x every buffer length min..min+200 (+ 300..1024 boundaries) x 3 background fills, all public read accessors / payload / extension / iterators / Debug called under catch_unwind, returned slices must lie inside the buffer, iterators within len/4+1 items. view-pbt: random buffers. recv-corrupt: a genuine response captured from a simulated run of a generated configuration is corrupted at up to 4 named length/offset/type fields (outer and quoted IHL, total lengths, protocol, UDP length/checksum, TCP data offset, RFC 4884 length, extension version / object length / class, Dublin marker, arbitrary octet) and/or truncated, then delivered to Channel::recv_probe and into a running Strategy at the instant the genuine response arrived. recv-sweep: for 20 configurations (protocol x family x extension mode x UDP strategy) x 15 fields: every value (all 256 / 87 boundary values for 16-bit fields) x every truncation length 0..=220 of three response shapes through recv_probe. Oracle: a value (response, nothing, error) comes back; no panic, no arithmetic overflow (overflow checks on). evaluations count deliveries / buffers",
+        rule: "view-sweep: for each of the 19 packet views, every value of its length/offset octet(s) (all 256, or 0..300 + boundaries + every 251st of 65536 for two-octet fields) x every buffer length min..min+200 (+ 300..1024 boundaries) x 3 background fills, all public read accessors / payload / extension / iterators / Debug called under catch_unwind, returned slices must lie inside the buffer, iterators within len/4+1 items. view-pbt: random buffers. recv-corrupt: a genuine response captured from a simulated run of a generated configuration is corrupted at up to 4 named length/offset/type fields (outer and quoted IHL, total lengths, protocol, UDP length/checksum, TCP data offset, RFC 4884 length, extension version / object length / class, Dublin marker, arbitrary octet) and/or truncated, then delivered to Channel::recv_probe and into a running Strategy at the instant the genuine response arrived. recv-sweep: for 20 configurations (protocol x family x extension mode x UDP strategy) x 15 fields: every value (all 256; for 16-bit fields 0..=64, every value 940..=1070 around the 1024-octet receive buffer and the internal 976 / 996 / 1004-octet buffers, and 18 boundary values) x every truncation length 0..=220 of three response shapes through recv_probe. Oracle: a value (response, nothing, error) comes back; no panic, no arithmetic overflow (overflow checks on). evaluations count deliveries / buffers",
         assumptions: vec![
             "setters with out-of-range payload arguments are a caller error and not exercised; debug assertions are compiled out as in the shipped binary",
         ],
